@@ -354,7 +354,9 @@ class Machine:
             self._return()
 
     def _return(self) -> None:
-        self._call_stack.unwind_loops()
+        eval_depth = self._call_stack.unwind_loops()
+        if eval_depth is not None:
+            self._vm_math.trim_stack(eval_depth)
         self._reg.pc = self._call_stack.get_return()
         self._call_stack.exit_routine()
 
@@ -377,10 +379,10 @@ class Machine:
                 self._reg.pc += 1
 
     def _loop(self) -> None:
-        self._call_stack.enter_loop()
+        self._call_stack.enter_loop(self._vm_math.stack_depth())
 
     def _end_loop(self) -> None:
-        self._call_stack.exit_loop()
+        self._vm_math.trim_stack(self._call_stack.exit_loop())
 
     @inject(LightSet)
     def _matrix(self, light_set) -> None:
